@@ -13,6 +13,7 @@ import lib  # noqa
 import c11_kernels  # noqa
 import c11_brick  # noqa
 import c11_glue  # noqa
+import c11_motion  # noqa
 import c11_gen as G  # noqa
 
 PID = 'C11'
@@ -316,6 +317,89 @@ def validate_glue(ctx, translated):
                       signature={'kind': 'glue-crash', 'method': t['kind']})
     ctx.notes['glue_validation'] = {'validate_cases': n_val, 'slot_answers_cases': len(tasks) - n_val,
                                     'disagreements': n_bad, 'translated': translated}
+    return len(tasks), n_bad
+
+
+# ------------------------------- 1c. validation of the translated motions (gen/Motion.v)
+def validate_motion(ctx, translated):
+    """gen/Motion.v evaluated over Q in Coq (c, s = the floats np.cos(theta), np.sin(theta)) vs the
+    coordinates the nodes hold after fd.rotation(axis, theta) / fd.translation(v): non-unit integer and
+    decimal axes, arbitrary angles, decimal coordinates; 1e-11 (absolute + relative)."""
+    rng = ctx.rng
+    n = 24 if ctx.tier == 'quick' else 120
+    tasks = []
+    for i in range(n):
+        coords = [[round(rng.uniform(-10, 10), 3) for _ in range(3)] for _ in range(4)]
+        mesh = {'node_ids': rng.sample(range(1, 60), 4), 'coords': coords, 'coord_dtype': 'float64'}
+        mesh['blocks'] = [['tet', [rng.randrange(1, 99)], [list(mesh['node_ids'])]]]
+        if i % 4 == 3:
+            t = {'motion': 'translation', 'axis': [round(rng.uniform(-50, 50), 2) for _ in range(3)]}
+        else:
+            axis = rng.choice([[0.0, 0.0, 1.0], [1.0, 1.0, 1.0], [0.0, -3.0, 4.0],
+                               [round(rng.uniform(-5, 5), 2) or 1.0 for _ in range(3)],
+                               [float(rng.randint(-3, 3)) or 2.0, float(rng.randint(-3, 3)), float(rng.randint(-3, 3))]])
+            t = {'motion': 'rotation', 'axis': axis,
+                 'theta': rng.choice([rng.uniform(-7, 7), math.pi / 2, math.pi, 2 * math.pi / 3, 1e-3, 0.0])}
+        tasks.append(dict(t, id=len(tasks), kind='motion_point', mesh=mesh))
+    res = run_impl(ctx, tasks, 'motion_point')
+    items, crashed = [], []
+    tol = Fraction(1, 10 ** 11)
+    for t in tasks:
+        r = res[t['id']]
+        ctx.count('motion-code:' + t['motion'])
+        ctx.case(['motion-code', t['motion'], t['axis'], t.get('theta'), t['mesh']['coords']],
+                 sample={'stream': 'translated translation()/rotation() vs the methods', 'motion': t['motion'],
+                         'axis': t['axis'], 'theta': t.get('theta')} if t['id'] < 2 else None)
+        if 'coords' not in r:
+            crashed.append(t)
+            continue
+        pos = dict(zip(t['mesh']['node_ids'], t['mesh']['coords']))
+        a = ' '.join(qf(Fraction(x)) for x in t['axis'])
+        for k, (nid, after) in enumerate(zip(r['node_ids'], r['coords'])):
+            xyz = ' '.join(qf(Fraction(x)) for x in pos[nid])
+            if t['motion'] == 'rotation':
+                call = f"rotation_xyz QOps {a} {qf(hexq(r['c']))} {qf(hexq(r['s']))} {xyz}"
+            else:
+                call = f'translation_xyz QOps {a} {xyz}'
+            items.append(f"({8 * t['id'] + k}%nat, close3 {qf(tol)} {qf(tol)} ({call}) "
+                         f"{v3flit([hexq(x) for x in after])})")
+    text = (HEADER + 'From FV.C11.gen Require Import Motion.\n'
+            'Definition cases : list (nat * bool) := [' + ';\n'.join(items) + '].\n'
+            'Goal True. idtac "@@ failing". Abort.\n'
+            'Eval vm_compute in map fst (filter (fun c => negb (snd c)) cases).\n')
+    rc, out, err = ctx.coq_eval('MotionCodeCases', text, timeout=600)
+    bad = failing(out, 'failing') if rc == 0 else None
+    n_bad = 0
+    if bad is None:
+        ctx.log('MotionCodeCases.v failed to compile:', err[-600:])
+        ctx.violation('tie-broken', {'stage': 'MotionCodeCases.v'}, 'case file compiles', err[-300:],
+                      'validation of gen/Motion.v', found_input=False,
+                      signature={'kind': 'case-file', 'file': 'MotionCodeCases'})
+        return len(tasks), 1
+    byid = {t['id']: t for t in tasks}
+    seen = set()
+    for j in bad:
+        t = byid[j // 8]
+        n_bad += 1
+        if (t['motion'], t['id']) in seen or len(seen) >= 6:
+            continue
+        seen.add((t['motion'], t['id']))
+        ctx.violation('correspondence' if translated else 'impl-violation',
+                      {k: t[k] for k in ('motion', 'axis', 'theta', 'mesh') if k in t},
+                      'every node goes where the translated method (gen/Motion.v, a proved rotation / translation) '
+                      'sends it', {k: res[t['id']].get(k) for k in ('node_ids', 'coords', 'c', 's')},
+                      'C11_rotation_code_is_a_rotation / C11_translation_code_is_a_translation '
+                      '(gen/Motion.v evaluated in Coq vs the method)', found_input=True,
+                      signature={'kind': 'motion-code', 'motion': t['motion']},
+                      what=f"{t['motion']}() does not move the nodes as " +
+                           ('translated' if translated else 'the reference semantics say'))
+    for t in crashed:
+        n_bad += 1
+        ctx.violation('correspondence', {k: t[k] for k in ('motion', 'axis', 'theta', 'mesh') if k in t},
+                      'method runs on a mesh without attached data', res[t['id']], 'validation of gen/Motion.v',
+                      found_input=True, signature={'kind': 'motion-code-crash', 'motion': t['motion']})
+    ctx.notes['motion_code_validation'] = {'motions': len(tasks), 'node_comparisons': len(items),
+                                           'disagreements': n_bad, 'translated': translated}
     return len(tasks), n_bad
 
 
@@ -1347,6 +1431,23 @@ def main(ctx):
                       'reference, tied to the code by correspondence only (glue validation, option-history and '
                       'graded-mesh streams at thorough depth)'}
     deep = not glue_translated
+    # 1c. translation() / rotation(): what they do to one node, translated; outside the grammar -> the
+    # reference text (tie H by the motion correspondence), not a violation by itself
+    motion_translated = False
+    try:
+        mmodel, mconsumed = c11_motion.translate(str(lib.REPO))
+        ctx.sources.update(mconsumed)
+        lib.write_if_changed(lib.COQ / 'C11' / 'gen' / 'Motion.v', c11_motion.emit(mmodel))
+        motion_translated = True
+        ctx.notes['motion_translator'] = {'translated': True}
+    except (c11_kernels.TranslateError, SyntaxError) as e:
+        lib.write_if_changed(lib.COQ / 'C11' / 'gen' / 'Motion.v',
+                             (lib.VERIF / 'translate' / 'c11_motion_reference.v').read_text())
+        ctx.log('translation()/rotation() outside the translator grammar (reference semantics):', e)
+        ctx.notes['motion_translator'] = {
+            'translated': False, 'error': str(e),
+            'policy': 'gen/Motion.v holds the reference semantics; the PropsMotion theorems are then about the '
+                      'reference, tied to the code by the motion correspondence only'}
     # 2. proofs
     proof_ok = False
     if tie_ok:
@@ -1377,6 +1478,16 @@ def main(ctx):
                                      c11_glue.emit(c11_glue.REFERENCE, translated=False))
                 lib.coq_make(['C11/gen/Glue.vo'])
             deep = True
+    motion_proof_ok = None
+    if model_ok and proof_ok:
+        motion_proof_ok, mlog = ctx.build_props('C11/PropsMotion.v')
+        if not motion_proof_ok:
+            ctx.notes['motion_build_log_tail'] = mlog[-2000:]
+            okm, _, _ = lib.coq_make(['C11/gen/Motion.vo'])
+            if not okm:
+                lib.write_if_changed(lib.COQ / 'C11' / 'gen' / 'Motion.v',
+                                     (lib.VERIF / 'translate' / 'c11_motion_reference.v').read_text())
+                lib.coq_make(['C11/gen/Motion.vo'])
     n_viol_before = len(ctx.violations)
     # 3. translator validation
     if model_ok:
@@ -1385,6 +1496,9 @@ def main(ctx):
         ctx.notes['translator_validation'] = {'cases': nk, 'disagreements': nk_bad}
         ng, ng_bad = validate_glue(ctx, glue_translated)
         ctx.log(f'glue validation: {ng} cases, {ng_bad} disagreements')
+        if motion_proof_ok is not None:
+            nm, nm_bad = validate_motion(ctx, motion_translated)
+            ctx.log(f'motion-code validation: {nm} motions, {nm_bad} disagreements')
     # 4. entry points: implementation (corpus first)
     meshes, corpus_calls = [], []
     for f in sorted((lib.VERIF / 'corpus' / PID).glob('*.json')):
@@ -1507,6 +1621,21 @@ def main(ctx):
                       'do not check', ', '.join(bad)[:300],
                       found_input=len(ctx.violations) > n_viol_before,
                       signature={'kind': 'proof-broken', 'file': 'PropsGlue'})
+    if motion_proof_ok is False:
+        names = lib.theorem_names(lib.COQ / 'C11' / 'PropsMotion.v')
+        bad = [o['name'] for o in ctx.obligations if not o['discharged'] and o['name'] in names]
+        ctx.violation('proof-broken', {'theorems': bad, 'motion_translated': motion_translated,
+                                       'log': ctx.notes.get('motion_build_log_tail', '')[-600:]},
+                      'the theorems of C11/PropsMotion.v check against the regenerated gen/Motion.v '
+                      '(rotation() is a rotation, translation() a translation; areas / volumes invariant, '
+                      'normals follow)', 'do not check', ', '.join(bad)[:300],
+                      found_input=len(ctx.violations) > n_viol_before,
+                      signature={'kind': 'proof-broken', 'file': 'PropsMotion'})
+    if ctx.tier == 'thorough' and proof_ok and motion_proof_ok:
+        if not ctx.coqchk('C11/PropsMotion.v'):
+            ctx.violation('proof-broken', {'coqchk': ctx.notes.get('coqchk')},
+                          'coqchk accepts C11/PropsMotion.vo and its dependencies', 'rejected',
+                          'coqchk FV.C11.PropsMotion', found_input=False, signature={'kind': 'coqchk-motion'})
     if ctx.tier == 'thorough' and proof_ok and glue_proof_ok:
         if not ctx.coqchk('C11/PropsGlue.v'):
             ctx.violation('proof-broken', {'coqchk': ctx.notes.get('coqchk')},
